@@ -25,8 +25,21 @@ for d in ${@:-$HERE/../seeded/*}; do
     rc=$?
     if [ $rc -eq 1 ]; then caught="$caught $p"; elif [ $rc -eq 0 ]; then missed="$missed $p"; else errs="$errs $p($rc)"; fi
   done
-  first=$(grep -h -A1 "^VIOLATION" $OUT/$id.*.log | grep "family=" | head -1 | cut -c1-300 | sed 's/"/\\"/g')
-  echo "{\"id\":\"$id\",\"tier\":\"quick\",\"seed\":0,\"checks_reporting_a_violation\":\"$(echo $caught)\",\"checks_run\":\"$(echo ${PROPS:-${sel:-$ALL}})\",\"checks_silent\":\"$(echo $missed)\",\"checks_inconclusive\":\"$(echo $errs)\",\"example\":\"$first\"}" > $OUT/$id.detect.json; cp $OUT/$id.detect.json $d/detect.json 2>/dev/null
+  python3 - "$id" "$(echo $caught)" "$(echo $missed)" "$(echo $errs)" "$(echo ${PROPS:-${sel:-$ALL}})" "$OUT" <<'PY' > $OUT/$id.detect.json
+import sys, json, glob
+id_, caught, missed, errs, run, out = sys.argv[1:7]
+example = ""
+for f in sorted(glob.glob(f"{out}/{id_}.*.log")):
+    lines = open(f, errors="replace").read().splitlines()
+    for i, l in enumerate(lines):
+        if l.startswith("VIOLATION") and i + 1 < len(lines):
+            example = lines[i + 1].strip()[:300]
+            break
+    if example:
+        break
+print(json.dumps({"id": id_, "tier": "quick", "seed": 0, "checks_reporting_a_violation": caught, "checks_run": run, "checks_silent": missed, "checks_inconclusive": errs, "example": example}))
+PY
+  cp $OUT/$id.detect.json $d/detect.json 2>/dev/null
   echo "$id caught_by:[$caught ] inconclusive:[$errs ]"
 done
 git -C /repo worktree remove --force $W >/dev/null 2>&1; git -C /repo worktree prune
